@@ -270,11 +270,20 @@ def run_results(pa, res, D):
                                 res["unspecified"] += 1
                                 continue
                             want = 1.0 if obs == 0 else 1 - obs / mean
-                            try:
-                                with serial_pool():
-                                    got = float(gr.gamma_cat if category is None else gr.gamma_k(category))
-                            except Exception as e:  # noqa
-                                got = f"{type(e).__name__}: {e}"
+                            import os as _os
+                            real_cpu = _os.cpu_count
+                            gots = []
+                            for cpus in (None, 1, 2):  # the number of workers must not influence the value
+                                if cpus is not None:
+                                    _os.cpu_count = lambda cpus=cpus: cpus
+                                try:
+                                    with serial_pool():
+                                        gots.append(float(gr.gamma_cat if category is None else gr.gamma_k(category)))
+                                except Exception as e:  # noqa
+                                    gots.append(f"{type(e).__name__}: {e}")
+                                finally:
+                                    _os.cpu_count = real_cpu
+                            got = gots[0] if all(isinstance(g, float) and close(g, gots[0]) for g in gots) else gots
                             ok = isinstance(got, float) and close(got, want) and got <= 1 + 1e-9
                             res["outcomes"].append(round(want, 5))
                             if ok:
